@@ -1,6 +1,251 @@
 package core
 
+import (
+	"bufio"
+	"bytes"
+	"fmt"
+	"os"
+	"os/exec"
+	"path/filepath"
+	"sort"
+	"strings"
+	"sync"
+)
+
+// Fixture is one go:generate directive of the repository expanded by the
+// generator built from the current tree (subject S2, DESIGN.md §0).
+type Fixture struct {
+	Name    string // target directory name, e.g. sample_api
+	Package string // Go package name
+	Spec    string // absolute path of the spec
+	Config  string // absolute path of the config ("" = none)
+	Dir     string // scratch directory holding the expansion
+	PkgPath string // import path inside the scratch module
+	Origin  string // generate.go the directive was read from
+}
+
 // Expansion is the S2 subject: templates expanded over fixture specs.
 type Expansion struct {
-	Dir string
+	Dir      string // scratch module root
+	Fixtures []*Fixture
+	Skipped  []string // directive → reason
+	Prog     *Prog
+}
+
+// QuickFixtures is the subset expanded by the quick tier.
+var QuickFixtures = []string{"sample_api", "test_parameters", "test_security", "test_form", "test_http_requests",
+	"test_http_responses", "test_webhooks", "ex_route_params"}
+
+type directive struct {
+	origin string
+	dir    string
+	args   []string
+}
+
+func readDirectives(file string) ([]directive, error) {
+	f, err := os.Open(file)
+	if err != nil {
+		return nil, err
+	}
+	defer f.Close()
+	var out []directive
+	sc := bufio.NewScanner(f)
+	for sc.Scan() {
+		ln := strings.TrimSpace(sc.Text())
+		if !strings.HasPrefix(ln, "//go:generate go run ") {
+			continue
+		}
+		fields := strings.Fields(strings.TrimPrefix(ln, "//go:generate go run "))
+		if len(fields) == 0 || !strings.HasSuffix(fields[0], "cmd/ogen") {
+			continue
+		}
+		out = append(out, directive{origin: file, dir: filepath.Dir(file), args: fields[1:]})
+	}
+	return out, sc.Err()
+}
+
+func parseDirective(d directive) (*Fixture, error) {
+	fx := &Fixture{Package: "api", Origin: d.origin}
+	abs := func(p string) string {
+		if filepath.IsAbs(p) {
+			return p
+		}
+		return filepath.Clean(filepath.Join(d.dir, p))
+	}
+	args := d.args
+	for i := 0; i < len(args); i++ {
+		a := strings.TrimLeft(args[i], "-")
+		if !strings.HasPrefix(args[i], "-") {
+			fx.Spec = abs(args[i])
+			continue
+		}
+		val := ""
+		if eq := strings.IndexByte(a, '='); eq >= 0 {
+			a, val = a[:eq], a[eq+1:]
+		}
+		switch a {
+		case "v", "clean":
+		case "config", "target", "package":
+			if val == "" && i+1 < len(args) {
+				i++
+				val = args[i]
+			}
+			switch a {
+			case "config":
+				fx.Config = abs(val)
+			case "target":
+				fx.Name = filepath.Base(val)
+			case "package":
+				fx.Package = val
+			}
+		default:
+			return nil, fmt.Errorf("unknown flag %q in go:generate directive of %s", args[i], d.origin)
+		}
+	}
+	if fx.Name == "" || fx.Spec == "" {
+		return nil, fmt.Errorf("directive without target/spec in %s: %v", d.origin, d.args)
+	}
+	return fx, nil
+}
+
+var expandMu sync.Mutex
+
+// Expand builds cmd/ogen from the current tree and expands the templates over
+// the go:generate fixtures (names == nil: all). The result is cached per Ctx.
+func (c *Ctx) Expand(names []string) (*Expansion, error) {
+	expandMu.Lock()
+	defer expandMu.Unlock()
+	if c.expanded != nil {
+		return c.expanded, nil
+	}
+	root, err := c.Scratch("s2")
+	if err != nil {
+		return nil, err
+	}
+	bin := filepath.Join(root, "ogen-gen")
+	cmd := exec.Command("go", "build", "-o", bin, "./cmd/ogen")
+	cmd.Dir = c.Repo
+	cmd.Env = goEnv()
+	if out, err := cmd.CombinedOutput(); err != nil {
+		return nil, fmt.Errorf("S2: building cmd/ogen from the current tree failed: %v\n%s", err, out)
+	}
+	var dirs []directive
+	for _, g := range []string{"internal/integration/generate.go", "examples/generate.go"} {
+		ds, err := readDirectives(filepath.Join(c.Repo, g))
+		if err != nil {
+			return nil, fmt.Errorf("S2: %v", err)
+		}
+		dirs = append(dirs, ds...)
+	}
+	if len(dirs) == 0 {
+		return nil, fmt.Errorf("S2: no go:generate directives found")
+	}
+	want := map[string]bool{}
+	for _, n := range names {
+		want[n] = true
+	}
+	ex := &Expansion{Dir: filepath.Join(root, "mod")}
+	if err := os.MkdirAll(ex.Dir, 0o755); err != nil {
+		return nil, err
+	}
+	var fixtures []*Fixture
+	for _, d := range dirs {
+		fx, err := parseDirective(d)
+		if err != nil {
+			return nil, fmt.Errorf("S2: %v", err)
+		}
+		if len(want) > 0 && !want[fx.Name] {
+			continue
+		}
+		if st, err := os.Stat(fx.Spec); err != nil || st.Size() == 0 {
+			ex.Skipped = append(ex.Skipped, fx.Name+": input spec missing or emptied in this sandbox")
+			continue
+		}
+		fx.Dir = filepath.Join(ex.Dir, fx.Name)
+		fx.PkgPath = "expansions/" + fx.Name
+		fixtures = append(fixtures, fx)
+	}
+	for n := range want {
+		found := false
+		for _, fx := range fixtures {
+			if fx.Name == n {
+				found = true
+			}
+		}
+		if !found {
+			return nil, fmt.Errorf("S2: fixture %q has no go:generate directive (or its spec is missing)", n)
+		}
+	}
+	// run the generator (macro expansion step), in parallel
+	type result struct {
+		fx  *Fixture
+		err error
+	}
+	ch := make(chan result, len(fixtures))
+	sem := make(chan struct{}, 8)
+	for _, fx := range fixtures {
+		fx := fx
+		go func() {
+			sem <- struct{}{}
+			defer func() { <-sem }()
+			args := []string{"--target", fx.Dir, "--package", fx.Package}
+			if fx.Config != "" {
+				args = append(args, "--config", fx.Config)
+			}
+			args = append(args, fx.Spec)
+			cmd := exec.Command(bin, args...)
+			cmd.Dir = filepath.Dir(fx.Origin)
+			var out bytes.Buffer
+			cmd.Stdout, cmd.Stderr = &out, &out
+			if err := cmd.Run(); err != nil {
+				tail := out.String()
+				if len(tail) > 1500 {
+					tail = tail[len(tail)-1500:]
+				}
+				ch <- result{fx, fmt.Errorf("S2: expanding %s failed: %v\n%s", fx.Name, err, tail)}
+				return
+			}
+			ch <- result{fx, nil}
+		}()
+	}
+	for range fixtures {
+		r := <-ch
+		if r.err != nil {
+			return nil, r.err
+		}
+	}
+	sort.Slice(fixtures, func(i, j int) bool { return fixtures[i].Name < fixtures[j].Name })
+	ex.Fixtures = fixtures
+	// scratch module
+	gomod := "module expansions\n\ngo 1.23\n\nrequire " + Module + " v0.0.0\n\nreplace " + Module + " => " + c.Repo + "\n"
+	if err := os.WriteFile(filepath.Join(ex.Dir, "go.mod"), []byte(gomod), 0o644); err != nil {
+		return nil, err
+	}
+	if sum, err := os.ReadFile(filepath.Join(c.Repo, "go.sum")); err == nil {
+		os.WriteFile(filepath.Join(ex.Dir, "go.sum"), sum, 0o644)
+	}
+	// generated test files are not part of the analysed program
+	filepath.Walk(ex.Dir, func(p string, info os.FileInfo, err error) error {
+		if err == nil && strings.HasSuffix(p, "_test.go") {
+			os.Remove(p)
+		}
+		return nil
+	})
+	prog, err := c.ProgramIn(ex.Dir, nil, "./...")
+	if err != nil {
+		return nil, fmt.Errorf("S2: expansions do not load/type-check: %w", err)
+	}
+	ex.Prog = prog
+	os.Remove(bin)
+	c.expanded = ex
+	return ex, nil
+}
+
+// FixtureNames lists the expanded fixtures.
+func (e *Expansion) FixtureNames() []string {
+	var out []string
+	for _, f := range e.Fixtures {
+		out = append(out, f.Name)
+	}
+	return out
 }
